@@ -44,9 +44,20 @@ def _wrap_checks():
                 raise
               c.undecide(f.__name__, str(e))
               return 0
+            except _SHAPE_ERRORS as e:
+              # the checker itself tripped: on the reference tree that is a bug of the checker (traceback, exit 2);
+              # on a tree that differs from the reference it is a shape the rule does not know
+              c = next((x for x in a if hasattr(x, "undecide")), None)
+              if c is None or not getattr(c.ix, "differs_from_reference", False):
+                raise
+              c.undecide(f.__name__, f"the rule does not recognise the changed code ({type(e).__name__}: {e})")
+              return 0
           return wrapper
         setattr(m, attr, make(fn))
         _WRAPPED.add((name, attr))
+
+
+_SHAPE_ERRORS = (KeyError, IndexError, AttributeError, TypeError, ValueError, StopIteration, AssertionError)
 
 
 def _run_steps(mod, ctx):
@@ -63,8 +74,8 @@ def _run_steps(mod, ctx):
   for st in fn.body:
     label = _ast.unparse(st).splitlines()[0][:100]
     handler = _ast.ExceptHandler(
-      type=_ast.Tuple(elts=[_ast.Name(id="AnalysisError", ctx=_ast.Load()), _ast.Name(id="NameError", ctx=_ast.Load())], ctx=_ast.Load()), name="_e",
-      body=[_ast.If(test=_ast.parse(f"isinstance(_e, NameError) and not {fn.args.args[0].arg}.not_analysed", mode="eval").body, body=[_ast.Raise(exc=None, cause=None)], orelse=[]),
+      type=_ast.Tuple(elts=[_ast.Name(id="AnalysisError", ctx=_ast.Load()), _ast.Name(id="NameError", ctx=_ast.Load())] + [_ast.Name(id=e_.__name__, ctx=_ast.Load()) for e_ in _SHAPE_ERRORS], ctx=_ast.Load()), name="_e",
+      body=[_ast.If(test=_ast.parse(f"(isinstance(_e, NameError) and not {fn.args.args[0].arg}.not_analysed) or (not isinstance(_e, (AnalysisError, NameError)) and not {fn.args.args[0].arg}.ix.differs_from_reference)", mode="eval").body, body=[_ast.Raise(exc=None, cause=None)], orelse=[]),
             _ast.Expr(_ast.Call(func=_ast.Attribute(value=_ast.Name(id=fn.args.args[0].arg, ctx=_ast.Load()), attr="undecide", ctx=_ast.Load()),
                                 args=[_ast.Constant(label), _ast.Call(func=_ast.Name(id="str", ctx=_ast.Load()), args=[_ast.Name(id="_e", ctx=_ast.Load())], keywords=[])], keywords=[]))])
     body.append(_ast.Try(body=[st], handlers=[handler], orelse=[], finalbody=[]))
